@@ -76,7 +76,7 @@ def run_checks(sid):
     scratch = clone + '-out'
     os.makedirs(scratch + '/evidence', exist_ok=True)
     os.makedirs(scratch + '/replay', exist_ok=True)
-    envp = 'VERIF_REPO=%s VERIF_EVID_DIR=%s/evidence VERIF_REPLAY_DIR=%s/replay ' % (clone, scratch, scratch)
+    envp = 'VERIF_KANI_BATCH=1 VERIF_REPO=%s VERIF_EVID_DIR=%s/evidence VERIF_REPLAY_DIR=%s/replay ' % (clone, scratch, scratch)
     verdicts = {}
     try:
         for pid in claimed():
